@@ -374,6 +374,7 @@ pub proof fn lemma_prefix_case_fields(w: Seq<u8>, v4: bool, a: Seq<u8>, b: Seq<u
 
 // [props: C05]
 /// every proper prefix of a well-formed TCP line has an incomplete verdict and is not terminated
+#[verifier::rlimit(60)]
 pub proof fn lemma_c05_v1_tcp(v4: bool, a: Seq<u8>, b: Seq<u8>, p: Seq<u8>, q: Seq<u8>, k: int)
     requires
         v4 ==> from_str_spec::<std::net::Ipv4Addr>(a) is Ok && from_str_spec::<std::net::Ipv4Addr>(b) is Ok,
